@@ -26,6 +26,7 @@ import (
 	"github.com/sassoftware/relic/v8/config"
 	"github.com/sassoftware/relic/v8/lib/audit"
 	"github.com/sassoftware/relic/v8/lib/certloader"
+	"github.com/sassoftware/relic/v8/lib/verifhook"
 	"github.com/sassoftware/relic/v8/signers"
 	"github.com/sassoftware/relic/v8/signers/sigerrors"
 	"github.com/sassoftware/relic/v8/token"
@@ -93,13 +94,17 @@ func PublishAudit(info *audit.Info) error {
 	aconf := shared.CurrentConfig.Amqp
 	if aconf != nil && aconf.URL != "" {
 		if err := info.Publish(aconf); err != nil {
+			verifhook.Emit("AuditAmqp", "rid", info.Attributes["client.filename"], "ok", false)
 			return fmt.Errorf("failed to publish audit log: %w", err)
 		}
+		verifhook.Emit("AuditAmqp", "rid", info.Attributes["client.filename"], "ok", true)
 	}
 	if logFile := shared.CurrentConfig.AuditFile; logFile != "" {
 		if err := info.AppendTo(logFile); err != nil {
+			verifhook.Emit("AuditFile", "rid", info.Attributes["client.filename"], "ok", false)
 			return fmt.Errorf("writing audit log: %w", err)
 		}
+		verifhook.Emit("AuditFile", "rid", info.Attributes["client.filename"], "ok", true)
 	}
 
 	return nil
